@@ -40,3 +40,20 @@ Definition set_add (s : list Z) (x : Z) : list Z := if zmem x s then s else s ++
 Definition zrange (n : Z) : list Z := map Z.of_nat (seq 0 (Z.to_nat n)).
 (* enumerate(l) *)
 Definition enumerate_z {A : Type} (l : list A) : list (Z * A) := combine (map Z.of_nat (seq 0 (length l))) l.
+
+(* ---- additions for scoring/main.py ---- *)
+(* d[k] = v on a dict with integer keys: an existing key keeps its place and gets the new value, a new key goes last *)
+Fixpoint dict_set {V : Type} (d : list (Z * V)) (k : Z) (v : V) : list (Z * V) :=
+  match d with
+  | [] => [(k, v)]
+  | (k', v') :: r => if k' =? k then (k', v) :: r else (k', v') :: dict_set r k v
+  end.
+(* [x for x in l if p x] where p may raise: p is evaluated element by element from the left *)
+Fixpoint res_filter {A : Type} (p : A -> result bool) (l : list A) : result (list A) :=
+  match l with
+  | [] => Ok []
+  | a :: r => dor b <- p a; dor r' <- res_filter p r; Ok (if b then a :: r' else r')
+  end.
+(* truth value of an Optional[list]: None and [] are false *)
+Definition opt_list_truthy {A : Type} (o : option (list A)) : bool :=
+  match o with Some (_ :: _) => true | _ => false end.
